@@ -1594,6 +1594,7 @@ class Rig:
         self.probe_sess: Any = None
         self.probe_n = 0
         self.b_ends: List[SockEnd] = []
+        self.decoy_ends: List[SockEnd] = []
         self.b_servers: Dict[str, Any] = {}
         self.b_banner = b''
         self.b_rcvbuf = 0
@@ -1837,6 +1838,27 @@ class Rig:
         end = SockEnd(self, 'B%d' % len(self.b_ends), self.b_banner)
         self.b_ends.append(end)
         return end
+
+    def _decoy_factory(self):
+        end = SockEnd(self, 'D%d' % len(self.decoy_ends), b'')
+        self.decoy_ends.append(end)
+        return end
+
+    async def start_decoy(self, unix: bool):
+        """Destination of ANOTHER forwarding on the same connection: nothing
+        of the forwarding under test may ever reach it"""
+
+        if unix:
+            path = os.path.join(self.tmp, 'decoy.sock')
+            srv = await self.loop.create_unix_server(self._decoy_factory,
+                                                     path)
+            self.b_servers['decoy'] = srv
+            return path
+
+        srv = await self.loop.create_server(self._decoy_factory,
+                                            '127.0.0.1', 0)
+        self.b_servers['decoy'] = srv
+        return srv.sockets[0].getsockname()[1]
 
     async def start_b(self, unix: bool):
         if unix:
@@ -2140,7 +2162,31 @@ async def relay_scenario(rig: Rig, case, labels) -> bool:
 
     await rig.start()
     bwhere = await rig.start_b(b_unix)
+    decoy = case.get('decoy', 'none')
+    decoy_lst = None
+
+    if kind in ('direct', 'direct_unix', 'socks'):
+        decoy = 'none'
+
+    if decoy != 'none':
+        # a second forwarding of the same kind on the same connection, to a
+        # different destination, registered before or after the one under
+        # test (and possibly cancelled again before any traffic)
+        labels.add('decoy-' + decoy)
+        dwhere = await rig.start_decoy(b_unix)
+
+    if decoy.startswith('before'):
+        decoy_lst, _ = await setup_forward(rig, kind, dwhere, 'd')
+
     listener, awhere = await setup_forward(rig, kind, bwhere)
+
+    if decoy.startswith('after'):
+        decoy_lst, _ = await setup_forward(rig, kind, dwhere, 'd')
+
+    if decoy.endswith('-cancelled') and decoy_lst is not None:
+        decoy_lst.close()
+        await rig.must(decoy_lst.wait_closed(), 'close of the second '
+                       'forwarding')
 
     if accept in ('deny', 'coro-deny'):
         a = await open_a(rig, kind, awhere, bwhere, 'A')
@@ -2457,7 +2503,17 @@ def run_relay(case) -> CaseResult:
     labels = set()
 
     try:
-        nontrivial = rig.run(relay_scenario(rig, case, labels))
+        try:
+            nontrivial = rig.run(relay_scenario(rig, case, labels))
+        finally:
+            if rig.decoy_ends:
+                raise Violation(
+                    'relay', '%s: a connection made to the forwarding under '
+                    'test arrived at the destination of another forwarding '
+                    'of the same connection (%d connections, %d bytes)' %
+                    (case['kind'], len(rig.decoy_ends),
+                     sum(len(e.received) for e in rig.decoy_ends)),
+                    'relay:wrong-destination:' + case['kind'])
     finally:
         rig.close()
 
@@ -2490,6 +2546,8 @@ def relay_strategy(tier: str):
         'accept': pick(['none', 'none', 'allow', 'coro-allow',
                                    'deny', 'coro-deny']),
         'bystander': pick([False, False, True]),
+        'decoy': pick(['none', 'none', 'before', 'after', 'after',
+                       'after-cancelled', 'before-cancelled']),
         'slow': pick([False, False, True]),
         'ops': st.lists(op, max_size=6),
         'end': pick(['a_half', 'b_half', 'a_half', 'b_half',
@@ -3010,7 +3068,9 @@ FAMILIES = [
                                      'end-b_abort', 'end-conn_close',
                                      'bystander', 'pause', 'write>pkt',
                                      'socks-pipelined', 'flood-slow',
-                                     'accept-deny', 'accept-allow']},
+                                     'accept-deny', 'accept-allow',
+                                     'decoy-after', 'decoy-before',
+                                     'decoy-after-cancelled']},
            case_timeout=120),
     Family('release', run_release, strategy=release_strategy,
            budget={'quick': 160, 'thorough': 2000},
